@@ -52,8 +52,10 @@ def elementwise_cases(draw, op):
     c = {"op": op, "x": xs, "dtype": draw(st.sampled_from(["float32", "float64"])),
          "g": [draw(st.integers(-8, 8)) / 4.0 for _ in range(min(n, 8))] * (n // min(n, 8) + 1), "form": draw(st.sampled_from(["fn", "module"]))}
     if op == "bce_logits":
-        c["y"] = [draw(st.sampled_from([0.0, 1.0, 0.5, 0.25, 1.0, 0.0])) for _ in range(min(n, 8))] * (n // min(n, 8) + 1)
+        # "any labels/targets": hard, soft, and soft targets outside [0, 1] (the logit form is defined for any real target)
+        c["y"] = [draw(st.sampled_from([0.0, 1.0, 0.5, 0.25, 1.0, 0.0, 1.5, -0.5])) for _ in range(min(n, 8))] * (n // min(n, 8) + 1)
         c["reduction"] = draw(st.sampled_from(["none", "sum", "mean"]))
+        c["y_requires_grad"] = draw(st.sampled_from([False, False, True]))      # learned soft labels
     return c
 
 
@@ -104,11 +106,16 @@ def check_elementwise(c, rec):
     elif op == "bce_logits":
         y = np.array(c["y"][:len(c["x"])], dtype=dt)
         y64 = y.astype(np.float64)
+        yt = Tensor(y, requires_grad=bool(c.get("y_requires_grad")))
+        if c.get("y_requires_grad"):
+            rec.tag("target_requires_grad")
+        if np.any((y64 < 0) | (y64 > 1)):
+            rec.tag("target_outside_unit_interval")
         if c["form"] == "module":
-            out = nn.BCEWithLogitsLoss(reduction=c["reduction"])(t, Tensor(y))
+            out = nn.BCEWithLogitsLoss(reduction=c["reduction"])(t, yt)
             red = c["reduction"]
         else:
-            out = F.binary_cross_entropy_with_logits(t, Tensor(y))
+            out = F.binary_cross_entropy_with_logits(t, yt)
             red = "none"
         per = np.maximum(x64, 0) - x64 * y64 + np.log1p(np.exp(-np.abs(x64)))
         dper = special.expit(x64) - y64
